@@ -301,6 +301,68 @@ def _resolve_folders(prog):
                 break
 
 
+ORDER_RESTORING = ("reverse_top", "drain", "split_off", "drain_top")
+
+
+def check_map_literal_insertion_order(ctx, prog, ev, vm_regs):
+    """K14 (round 12, seed C04-12): a map literal with a key that occurs twice keeps the *last* entry - in the folder
+    (`Map::as_const` inserts the pairs in source order) and at run time alike, or hoisting one value of the literal
+    into a variable changes the result.  The generator pushes key, value, key, value, ...; a handler that pops the
+    pairs and inserts them as they come off the stack inserts them last to first (the first entry wins, and turning
+    the finished map around afterwards does not bring the lost entry back).  In the BuildMap / BuildKwargs handlers
+    (read through private helpers) a loop that pops and inserts must come after the step that restores the source
+    order of the operands (`reverse_top`, `drain`, `split_off`); the folder's loop must not run backwards."""
+    n = 0
+    for v in ("BuildMap", "BuildKwargs"):
+        reg = vm_regs.get(v)
+        if not reg:
+            continue
+        places = [(ev, set(reg))]
+        for c in arms.calls_in(ev, reg):
+            g_ = prog.fns.get(c.resolved or c.path)
+            if g_ is not None and g_.kind != "closure" and not g_.is_pub and g_.crate == ev.crate and g_.path.startswith("minijinja::vm::"):
+                places.append((g_, set(g_.reachable)))
+        judged = False
+        ok = True
+        detail = ""
+        where = ev.loc
+        for fn_, r_ in places:
+            dom = cfg.dominators(fn_)
+            for h, body in cfg.natural_loops(fn_):
+                if h not in r_:
+                    continue
+                ins = [c for c in arms.calls_in(fn_, body) if c.name.split("::")[-1] == "insert"]
+                pops = [c for c in arms.calls_in(fn_, body) if c.name.endswith(("Stack::pop", "Stack::try_pop", "Vec::pop"))]
+                if not ins or not pops:
+                    continue
+                judged = True
+                restoring = [c for c in arms.calls_in(fn_, r_) if c.name.split("::")[-1] in ORDER_RESTORING and c.bb in dom[h] and c.bb not in body]
+                if not restoring:
+                    ok = False
+                    where = fn_.where(h)
+                    detail = ("%s pops the pairs of a map literal and inserts them as they come off the stack - last to first - "
+                              "without restoring their source order first: of two entries with the same key the first one "
+                              "survives at run time while the constant folder keeps the last one" % fn_.path.split("::")[-1])
+        if not judged:
+            # no popping loop: the pairs are taken off in one piece (drain / split_off keep the source order)
+            taken = [c for fn_, r_ in places for c in arms.calls_in(fn_, r_) if c.name.split("::")[-1] in ORDER_RESTORING]
+            rev = [c for fn_, r_ in places for c in arms.calls_in(fn_, r_) if c.name.split("::")[-1] in ("rev", "reverse")]
+            ok = bool(taken) and not rev
+            detail = "cannot see how the %s handler takes its pairs off the stack in source order" % v
+        n += 1
+        ctx.ob("C04.K14.map-literal-pairs-are-inserted-in-source-order", "eval_impl|" + v, ok, detail, where)
+    for k, f in sorted(prog.fns.items()):
+        if k.startswith("minijinja::compiler::ast::Map") and k.endswith("::as_const") and f.kind != "closure":
+            loops = [(h, b) for h, b in cfg.natural_loops(f) if any(c.name.split("::")[-1] == "insert" for c in arms.calls_in(f, b))]
+            back = [c for c in f.calls() if c.name.split("::")[-1] in ("rev", "reverse", "next_back", "pop")]
+            n += 1
+            ctx.ob("C04.K14.map-literal-pairs-are-inserted-in-source-order", "Map::as_const", bool(loops) and not back,
+                   "the constant folder inserts the pairs of a map literal in source order (a forward loop with an insert); "
+                   "found %d inserting loops, backwards steps: %s" % (len(loops), [c.name.split("::")[-1] for c in back]), f.loc)
+    return n
+
+
+
 def run(ctx):
     ctx.explain("C04: sibling cross-check by switch-arm summaries: (BinOpKind/CompareOpKind -> operator function and "
                 "operand order) extracted from the constant folder is compared with (kind -> Instruction) from the "
@@ -319,6 +381,8 @@ def run(ctx):
     ctx.need(disp and len(ev.term(disp[0][0])["arms"]) >= 40, "C04: interpreter dispatch not found")
     dbb = disp[0][0]
     vm_regs = arms.arm_regions(prog, ev, dbb, INSTR)
+    n14 = check_map_literal_insertion_order(ctx, prog, ev, vm_regs)
+    ctx.floor("C04.K14 map literal evaluators", n14, 3)
     vm_tab = {}
     for v, reg in vm_regs.items():
         ops_ = []
